@@ -11,6 +11,14 @@
  * the values on the case line, so the blinding value is known.
  *
  * argv[1] = scratch directory (key files of the W op are written there).
+ * argv[2] = --aesni-selftest-fails (optional): before the first line the
+ *      library's start-up self-test of the AES-NI code is made to fail (the
+ *      allocation inside crypto_aes_key_expand_aesni is refused once while
+ *      crypto_aes_can_use_intrinsics() runs for the first time), so a binary
+ *      compiled with CPUSUPPORT_X86_AESNI on a CPU that has AES-NI falls back
+ *      to OpenSSL for the rest of the process.
+ * Linked with c20_detect_stub.c; with -DC20_STUB_AESNI that file replaces
+ * cpusupport/cpusupport_x86_aesni.c and the CPU "has no AES-NI".
  *
  * Line protocol (hex tokens, "-" = empty):
  *  H <alg> <h|s>[off] <reps> <msg> <parts>        hash ctx on heap / stack
@@ -48,13 +56,29 @@
  *      active throughout, the entropy queue is replayed in every run
  *      -> R ret= ncalls= n=<N> n2= runs= fired= notreached= failret= absorbed=
  *           absdiff= badret= fruns= fkfirst= fklast= + the usual scan fields
- *  W <content> <failat> <pats>      write key file, aws_readkeys (failat = k:
- *                                   the k-th allocation inside it fails; 0 = none)
- *      -> R key=value ... (see report())
+ *  W <content> <failat> <pats> [<fault>]   write key file, aws_readkeys
+ *      (failat = k: the k-th allocation inside it fails; 0 = none)
+ *      fault = stdio fault injected while aws_readkeys runs (--wrap=fopen,
+ *      fgets,ferror,fclose; <e> = errno value):
+ *        -          none
+ *        fo:<e>     fopen returns NULL (nothing is opened)
+ *        fc:<e>     fclose really closes the stream, then returns EOF
+ *        fg:<k>:<e> the k-th fgets returns NULL and ferror() of that stream
+ *                   answers 1 from then on
+ *        rd:<k>     before the k-th fgets the descriptor under the stream is
+ *                   replaced by a directory: the next read(2) libc issues
+ *                   fails with EISDIR, the error indicator is libc's own
+ *      after a return of -1 every block allocated during the call that is
+ *      still live is searched too (left=)
+ *      -> R ret= allocs= nfailed= sf=<fault fired> sfnull=<fgets returned NULL
+ *         with the stream in error> nfopen= nfgets= nfclose= left=<live blocks
+ *         holding secret text> + the usual scan fields
  * alg: sha256 | sha1 | md5.
  */
 #include "vh.h"
 
+#include <errno.h>
+#include <fcntl.h>
 #include <signal.h>
 #include <unistd.h>
 
@@ -795,6 +819,33 @@ struct refkey {
 };
 
 /*
+ * What the AES code was told about its environment: c20_detect_calls is the
+ * number of calls of the substituted detector (-1: real detector linked),
+ * g_stfail the number of allocations refused during the injected failure of
+ * the AES-NI self-test (-1: not requested).
+ */
+extern int c20_detect_calls;
+static int g_stfail = -1;
+
+/* --aesni-selftest-fails: see the head of this file. */
+static void
+fail_aesni_selftest(void)
+{
+	int impl;
+
+	wa_reset_count();
+	wa_fail_at(1, 0);
+	wa_enable(1);
+	impl = crypto_aes_can_use_intrinsics();
+	wa_enable(0);
+	wa_fail_at(0, 0);
+	g_stfail = (int)wa_nfailed();
+	wa_reset_count();
+	if (impl != 0)
+		g_stfail = 0;	/* the runner reports this as a harness problem */
+}
+
+/*
  * Key bytes are searched for in windows of 8: half a round key left behind
  * (e.g. a wipe that starts or stops 8 bytes off) is still key material.
  */
@@ -899,8 +950,8 @@ op_aeskey(struct vh_line * L)
 	LIB(crypto_aes_key_free(k));
 
 	g_mis = 0;
-	printf("R impl=%d nr=%d objsize=%zu enc=%d present=%zu mis=%d", impl, R.nr,
-	    ksz, encok, present, mis);
+	printf("R impl=%d det=%d stf=%d nr=%d objsize=%zu enc=%d present=%zu mis=%d",
+	    impl, c20_detect_calls, g_stfail, R.nr, ksz, encok, present, mis);
 	report_scan();
 	free(fk);
 	free(fi);
@@ -925,6 +976,21 @@ op_aesctr(struct vh_line * L)
 	int encok = 1, impl, kk, nmis = 0;
 	struct vh_rng rng;
 	uint64_t streamed = 0;
+	/* state of the stream objects at the moment they were freed */
+	size_t f_uninit = 0, f_unused = 0, f_mid = 0, f_rekeyed = 0, f_full = 0;
+	int used = 0, rekeyed = 0;
+#define NOTE_FREE_STATE() do {						\
+		if (!inited)						\
+			f_uninit++;					\
+		else if (!used)						\
+			f_unused++;					\
+		else if (pos % 16)					\
+			f_mid++;					\
+		else							\
+			f_full++;					\
+		if (rekeyed)						\
+			f_rekeyed++;					\
+	} while (0)
 
 	pats_reset();
 	g_mis = (L->ntok > 4 && vh_tok(L, 4)[0] == 'm');
@@ -963,6 +1029,7 @@ op_aesctr(struct vh_line * L)
 			curkey = 1;
 			pos = 0;
 			inited = 1;
+			used = rekeyed = 0;
 			nobj++;
 		} else if (p[0] == 'a') {
 			if (st != NULL)
@@ -973,6 +1040,7 @@ op_aesctr(struct vh_line * L)
 			nmis += (((uintptr_t)st) % 16 == 8);
 			inited = 0;
 			curkey = 0;
+			used = rekeyed = 0;
 			nobj++;
 		} else if (p[0] == 'r') {
 			char * q;
@@ -988,7 +1056,10 @@ op_aesctr(struct vh_line * L)
 			LIB(crypto_aesctr_init2(st, kidx ? ek[kidx] : NULL, nonce));
 			if (kidx)
 				curkey = kidx;
+			if (inited)
+				rekeyed = 1;	/* init2 on a stream already in use */
 			pos = 0;
+			used = 0;
 			inited = 1;
 		} else if (p[0] == 's') {
 			size_t len = (size_t)strtoull(p + 2, NULL, 10);
@@ -1019,6 +1090,8 @@ op_aesctr(struct vh_line * L)
 				}
 			}
 			pos += len;
+			if (len)
+				used = 1;
 			streamed += len;
 			nstream++;
 			free(fi);
@@ -1034,6 +1107,7 @@ op_aesctr(struct vh_line * L)
 				vh_die("stream object is not a tracked block");
 			present_ks += scan((const uint8_t *)st, sz,
 			    CLS_KEYSTREAM, NULL);
+			NOTE_FREE_STATE();
 			LIB(crypto_aesctr_free(st));
 			st = NULL;
 		} else
@@ -1045,6 +1119,7 @@ op_aesctr(struct vh_line * L)
 		if (sz == (size_t)(-1))
 			vh_die("stream object is not a tracked block");
 		present_ks += scan((const uint8_t *)st, sz, CLS_KEYSTREAM, NULL);
+		NOTE_FREE_STATE();
 		LIB(crypto_aesctr_free(st));
 	}
 	control_malloc();
@@ -1062,9 +1137,11 @@ op_aesctr(struct vh_line * L)
 		free(fkx[kk]);
 		vh_free(key[kk]);
 	}
-	printf("R impl=%d objs=%zu streams=%zu streamed=%" PRIu64
-	    " enc=%d present=%zu presentkey=%zu mis=%d", impl, nobj, nstream,
-	    streamed, encok, present_ks, present_key, nmis);
+	printf("R impl=%d det=%d stf=%d objs=%zu streams=%zu streamed=%" PRIu64
+	    " enc=%d present=%zu presentkey=%zu mis=%d funinit=%zu funused=%zu"
+	    " fmid=%zu ffull=%zu frekeyed=%zu", impl, c20_detect_calls, g_stfail,
+	    nobj, nstream, streamed, encok, present_ks, present_key, nmis,
+	    f_uninit, f_unused, f_mid, f_full, f_rekeyed);
 	g_mis = 0;
 	report_scan();
 	vh_free(script);
@@ -1248,6 +1325,155 @@ op_dh(struct vh_line * L, int op, size_t base, int fault)
 /* ------------------------------------------------------------------ */
 static const char * scratch;
 
+/*
+ * Stdio fault injection (-Wl,--wrap=fopen,fgets,ferror,fclose).  The wrappers
+ * pass everything through unless SF.active, which is set only around the call
+ * of aws_readkeys.
+ */
+enum { SF_NONE = 0, SF_FOPEN, SF_FCLOSE, SF_FGETS, SF_READ };
+static struct {
+	volatile int active;
+	int mode;
+	uint64_t k;		/* which fgets call (SF_FGETS, SF_READ) */
+	int err;		/* errno to report */
+	uint64_t nfopen, nfgets, nfclose;
+	int fired;		/* the fault was injected */
+	int sawnull;		/* fgets returned NULL with the stream in error */
+	FILE * badf;		/* stream whose ferror() is forced to 1 */
+} SF;
+
+FILE * __real_fopen(const char *, const char *);
+FILE * __wrap_fopen(const char *, const char *);
+char * __real_fgets(char *, int, FILE *);
+char * __wrap_fgets(char *, int, FILE *);
+int __real_ferror(FILE *);
+int __wrap_ferror(FILE *);
+int __real_fclose(FILE *);
+int __wrap_fclose(FILE *);
+
+FILE *
+__wrap_fopen(const char * path, const char * mode)
+{
+
+	if (!SF.active)
+		return (__real_fopen(path, mode));
+	SF.nfopen++;
+	if (SF.mode == SF_FOPEN) {
+		SF.fired = 1;
+		errno = SF.err;
+		return (NULL);
+	}
+	return (__real_fopen(path, mode));
+}
+
+char *
+__wrap_fgets(char * s, int n, FILE * f)
+{
+	char * r;
+
+	if (!SF.active)
+		return (__real_fgets(s, n, f));
+	SF.nfgets++;
+	if (SF.mode == SF_FGETS && SF.nfgets == SF.k) {
+		SF.fired = 1;
+		SF.sawnull = 1;
+		SF.badf = f;
+		errno = SF.err;
+		return (NULL);
+	}
+	if (SF.mode == SF_READ && SF.nfgets == SF.k) {
+		/* The file under the stream turns into something unreadable. */
+		int dfd = open(scratch, O_RDONLY | O_DIRECTORY);
+
+		if (dfd < 0 || dup2(dfd, fileno(f)) < 0)
+			vh_die("cannot replace the descriptor");
+		close(dfd);
+		SF.fired = 1;
+	}
+	r = __real_fgets(s, n, f);
+	if (r == NULL && SF.mode == SF_READ && SF.fired && __real_ferror(f))
+		SF.sawnull = 1;
+	return (r);
+}
+
+int
+__wrap_ferror(FILE * f)
+{
+
+	if (SF.active && SF.badf != NULL && f == SF.badf)
+		return (1);
+	return (__real_ferror(f));
+}
+
+int
+__wrap_fclose(FILE * f)
+{
+	int rc;
+
+	if (!SF.active)
+		return (__real_fclose(f));
+	SF.nfclose++;
+	if (f == SF.badf)
+		SF.badf = NULL;
+	/* The stream is closed for real, then the error is reported. */
+	rc = __real_fclose(f);
+	if (SF.mode == SF_FCLOSE) {
+		SF.fired = 1;
+		errno = SF.err;
+		return (EOF);
+	}
+	return (rc);
+}
+
+static void
+parse_fault(const char * s)
+{
+	char * e;
+
+	memset(&SF, 0, sizeof(SF));
+	if (strcmp(s, "-") == 0)
+		return;
+	if (strncmp(s, "fo:", 3) == 0) {
+		SF.mode = SF_FOPEN;
+		SF.err = (int)strtol(s + 3, NULL, 10);
+	} else if (strncmp(s, "fc:", 3) == 0) {
+		SF.mode = SF_FCLOSE;
+		SF.err = (int)strtol(s + 3, NULL, 10);
+	} else if (strncmp(s, "fg:", 3) == 0) {
+		SF.mode = SF_FGETS;
+		SF.k = strtoull(s + 3, &e, 10);
+		if (*e != ':' || SF.k == 0)
+			vh_die("bad fault %s", s);
+		SF.err = (int)strtol(e + 1, NULL, 10);
+	} else if (strncmp(s, "rd:", 3) == 0) {
+		SF.mode = SF_READ;
+		SF.k = strtoull(s + 3, NULL, 10);
+		if (SF.k == 0)
+			vh_die("bad fault %s", s);
+	} else
+		vh_die("bad fault %s", s);
+	if (SF.mode != SF_READ && SF.err <= 0)
+		vh_die("bad errno in fault %s", s);
+}
+
+/* Live blocks allocated after sequence number `since` that hold a secret. */
+struct leftscan {
+	uint64_t since;
+	size_t blocks, hits;
+};
+
+static void
+left_visit(void * p, size_t n, void * cookie)
+{
+	struct leftscan * ls = cookie;
+
+	if (wa_seq_of(p) <= ls->since)
+		return;
+	ls->blocks++;
+	if (scan(p, n, -1, NULL))
+		ls->hits++;
+}
+
 static void
 op_readkeys(struct vh_line * L)
 {
@@ -1259,11 +1485,13 @@ op_readkeys(struct vh_line * L)
 	char * id = NULL, * sec = NULL;
 	int rc;
 	uint64_t allocs;
+	struct leftscan ls;
 
 	if (scratch == NULL)
 		vh_die("no scratch directory given");
 	pats_reset();
 	parse_pats(vh_tok(L, 3), CLS_TEXT, 8);
+	parse_fault(L->ntok > 4 ? vh_tok(L, 4) : "-");
 	snprintf(path, sizeof(path), "%s/kf-%ld.txt", scratch, (long)getpid());
 	if ((f = fopen(path, "wb")) == NULL)
 		vh_die("cannot write %s", path);
@@ -1287,10 +1515,14 @@ op_readkeys(struct vh_line * L)
 		vh_free(s);
 	}
 
+	memset(&ls, 0, sizeof(ls));
+	ls.since = wa_total_allocs();
 	wa_reset_count();
 	wa_fail_at(failat, 0);
 	wa_enable(1);
+	SF.active = 1;
 	LIB(rc = aws_readkeys(path, &id, &sec));
+	SF.active = 0;
 	wa_enable(0);
 	wa_fail_at(0, 0);
 	allocs = wa_count();
@@ -1298,11 +1530,20 @@ op_readkeys(struct vh_line * L)
 		/* success: the strings are ours now */
 		free(id);
 		free(sec);
+	} else {
+		/*
+		 * Failure: nothing the call allocated may be left behind with
+		 * secret text in it (id / sec are dangling and not looked at).
+		 */
+		wa_foreach_live(left_visit, &ls);
 	}
 	unlink(path);
-	printf("R ret=%d allocs=%" PRIu64 " nfailed=%" PRIu64, rc, allocs,
-	    wa_nfailed());
+	printf("R ret=%d allocs=%" PRIu64 " nfailed=%" PRIu64 " sf=%d sfnull=%d"
+	    " nfopen=%" PRIu64 " nfgets=%" PRIu64 " nfclose=%" PRIu64
+	    " leftblocks=%zu left=%zu", rc, allocs, wa_nfailed(), SF.fired,
+	    SF.sawnull, SF.nfopen, SF.nfgets, SF.nfclose, ls.blocks, ls.hits);
 	report_scan();
+	memset(&SF, 0, sizeof(SF));
 	vh_free(content);
 }
 
@@ -1323,6 +1564,11 @@ main(int argc, char ** argv)
 #endif
 	if (argc > 1)
 		scratch = argv[1];
+	if (argc > 2) {
+		if (strcmp(argv[2], "--aesni-selftest-fails") != 0)
+			vh_die("bad argument %s", argv[2]);
+		fail_aesni_selftest();
+	}
 	vh_stdout_linebuf();
 	while (vh_readline(&L, stdin)) {
 		const char * op;
